@@ -308,6 +308,46 @@ func checkKV(sc *Scenario, rs *runState, out *explorer.Outcome) []cviol {
 			}
 			op.Out = v
 		}
+		if strings.ToLower(o.Args[0]) == "keys" && len(o.Args) == 2 && o.Args[1] == "*" {
+			// KEYS * is not a single-key command: the property does not claim it atomic over the whole
+			// keyspace (it lists the names, then looks at each key).  What it must satisfy is per key:
+			// a listed key existed, a key not listed was absent, at some instant of the call - one
+			// independent observation per key of the scenario, over the interval of the call.
+			if !o.Done {
+				continue
+			}
+			listed := map[string]bool{}
+			bad := op.Out.(model.Val).K != model.Array
+			if !bad {
+				for _, e := range op.Out.(model.Val).Arr {
+					listed[string(e.S)] = true
+				}
+			}
+			universe := scenarioKeys(sc)
+			for k := range listed {
+				found := false
+				for _, u := range universe {
+					if u == k {
+						found = true
+					}
+				}
+				if !found {
+					bad = true
+				}
+			}
+			if bad {
+				add("non-linearizable", sc.ID, "", fmt.Sprintf("scenario %s: KEYS * replied %s, which is not a list of keys of the scenario: %s", sc.ID, op.Out, histString(rs.ops)))
+				return vs
+			}
+			for _, u := range universe {
+				n := int64(0)
+				if listed[u] {
+					n = 1
+				}
+				ops = append(ops, lin.Op{Thread: o.Thread, Call: o.Call, Ret: o.Ret, In: h.B("EXISTS", u), Out: model.Val{K: model.Int, I: n}})
+			}
+			continue
+		}
 		ops = append(ops, op)
 	}
 	if sc.Atomic {
@@ -384,6 +424,33 @@ func checkKV(sc *Scenario, rs *runState, out *explorer.Outcome) []cviol {
 		}
 	}
 	return vs
+}
+
+// scenarioKeys: the key names a scenario can create (first key argument positions of its commands
+// after substitution of the key alphabet).
+func scenarioKeys(sc *Scenario) []string {
+	ks := keysOf()
+	all := []string{ks.K0, ks.K1, ks.K2, ks.K3}
+	seen := map[string]bool{}
+	var out []string
+	scan := func(cmds [][]string) {
+		for _, c := range cmds {
+			for _, a := range subst(c)[1:] {
+				for _, k := range all {
+					if a == k && !seen[k] {
+						seen[k] = true
+						out = append(out, k)
+					}
+				}
+			}
+		}
+	}
+	scan(sc.Seed)
+	for _, t := range sc.Threads {
+		scan(t)
+	}
+	sort.Strings(out)
+	return out
 }
 
 func uniq(s []string) []string {
